@@ -596,6 +596,7 @@ func runLogProp(cfg logRunCfg) func(seed int64, tier string, outDir string) *res
 			}
 			if cfg.prop == "C06" {
 				runBackfillForgeScenarios(xr, nf/2, st, xf)
+				runReloadedACScenarios(xr, na/3+1, st, xf)
 			}
 			if cfg.prop == "C04" {
 				runAppendScenarios(xr, na, st, xf)
@@ -759,5 +760,6 @@ func init() {
 	p17.pFault = 0.12
 	p17.pPin = 0.3
 	p17.pOpen = 0
+	p17.pBounded = 0.12 // size-bounded merges drop entries from the log, never blocks from the store
 	register("C17", runLogProp(logRunCfg{prop: "C17", profile: p17, nQuick: 150, nThorough: 3000, perShard: 12}))
 }
